@@ -114,7 +114,36 @@ def gen_bos_case(rng, i):
     return ops, False
 
 
+def gen_xlap_case(rng, i):
+    """two handles on a chain whose links have different short-block sizes, decoding at different rates (half-rate on one of them), positioned in
+    different links, then cross-lapped in both directions: the lapping lengths and window tables of the two sides are not the same"""
+    a = "link %d 44100 -0.1 %d %d %d 0 0" % (rng.choice([1, 2]), rng.choice([9000, 20000]), rng.randrange(6), rng.randrange(1, 40000))
+    b = "link %d %d %s %d %d %d 0 0" % (rng.choice([1, 2]), rng.choice([44100, 8000, 22050]), rng.choice([0.4, 0.7]), rng.choice([9000, 20000]), rng.randrange(6), rng.randrange(40001, 90000))
+    links = [a, b] if rng.random() < 0.5 else [b, a]
+    ops = ["case %d" % i] + links + ["open 0 1 4096", "open 1 1 4096"]
+    hr = rng.choice([0, 1])
+    ops.append("halfrate %d 1" % hr)
+    if rng.random() < 0.2:
+        ops.append("halfrate %d 1" % (1 - hr))
+    n0 = int(links[0].split(" ")[4])
+    for _ in range(rng.randint(3, 8)):
+        p0, p1 = rng.randrange(0, n0), n0 + rng.randrange(0, 9000)
+        if rng.random() < 0.5:
+            p0, p1 = p1, p0
+        ops += ["pcmseek 0 %d" % p0, "pcmseek 1 %d" % p1]
+        ops += ["read 0 %d" % rng.choice([1, 64, 4096])] * rng.choice([0, 1, 2])
+        ops += ["read 1 %d" % rng.choice([1, 64, 4096])] * rng.choice([0, 1, 2])
+        x, y = rng.choice([(0, 1), (1, 0)])
+        ops += ["crosslap %d %d" % (x, y), "read %d 4096" % y, "read %d 64" % y]
+        if rng.random() < 0.3:
+            ops.append("halfrate %d %d" % (rng.randrange(2), rng.randint(0, 1)))
+    ops += ["clear 0", "clear 1"]
+    return ops, False
+
+
 def gen_case(rng, i, tier, setups):
+    if i % 12 == 11:
+        return gen_xlap_case(rng, i)
     if i % 12 == 9 or i % 12 == 2:
         return gen_bos_case(rng, i)
     if i % 12 == 5:
